@@ -226,6 +226,9 @@ SHAPES = {
 }
 
 
+GEN_LEMMAS = ['NitroVerif.Lemmas.%sGen' % a for a in ('Backup', 'Barrier', 'Codec', 'MvccConc', 'Mvcc', 'RefCount', 'SkipConc', 'SkipSeq', 'Table')]
+
+
 def nontrivial_default(case, outs):
     return len(case) >= 3 and not all(o == 'bad-op' for o in outs)
 
@@ -238,7 +241,12 @@ def check(prop, tier, seed, no_build=False):
               'coverage': {'evaluations': 0, 'traces_validated_against_impl': 0, 'op_histogram': {}, 'samples': [],
                            '_distinct': set()}}
     cov = result['coverage']
-    modules = cfg['modules'] + ['NitroVerif.Lemmas.Shape' + a for a in SHAPES.get(prop, [])]
+    # the characterisation lemmas of EVERY generated guard (Lemmas/<Area>Gen.lean) are obligations of every property: the
+    # model driver is one executable that uses all of them, so a regenerated guard that no longer satisfies its lemma
+    # must never reach the correspondence run as "the model" (false alarm seen with harmless/1: the visibility test
+    # rewritten in negated form was translated with the opposite polarity, the properties whose modules do not
+    # import MvccGen went on with a wrong model and reported the implementation's correct answers as violations)
+    modules = cfg['modules'] + ['NitroVerif.Lemmas.Shape' + a for a in SHAPES.get(prop, [])] + GEN_LEMMAS
     thms = []
     proof_ok = True
     work = os.path.join(C.WORK, 'p%d' % os.getpid())
